@@ -24,6 +24,9 @@ pub struct Job {
     pub callbacks: bool,
     /// Directory substituted for `@OUT@` in flags; its files are observed.
     pub outdir: Option<String>,
+    /// Individual files to observe after the run (e.g. in a directory shared
+    /// with other generations); a missing file is an observation too.
+    pub watch: Vec<String>,
 }
 
 impl Job {
@@ -49,6 +52,7 @@ impl Job {
             corpus: jbool(v, "corpus"),
             callbacks: jbool(v, "callbacks"),
             outdir: jstr(v, "outdir").map(|s| s.to_string()),
+            watch: jstrs(v, "watch"),
         }
     }
 
@@ -479,6 +483,21 @@ pub fn run_job(job: &Job, opts: &RunOpts) -> Value {
         out["side_fp"] = json!(sfp);
         out["side_n"] = json!(n);
         let _ = std::fs::remove_dir_all(o);
+    }
+    if !job.watch.is_empty() {
+        let mut all = Vec::new();
+        for w in &job.watch {
+            let base = std::path::Path::new(w).parent().map(|p| p.to_string_lossy().to_string()).unwrap_or_default();
+            all.extend_from_slice(std::path::Path::new(w).file_name().map(|n| n.to_string_lossy().to_string()).unwrap_or_default().as_bytes());
+            all.push(0);
+            match std::fs::read(w) {
+                Ok(bytes) => all.extend_from_slice(String::from_utf8_lossy(&bytes).replace(&base, "@DIR@").as_bytes()),
+                Err(_) => all.extend_from_slice(b"<missing>"),
+            }
+            all.push(0);
+        }
+        out["side_fp"] = json!(fp(&all));
+        out["side_n"] = json!(job.watch.len());
     }
     if let Some(r) = report {
         out["fix"] = report_json(&r);
